@@ -65,7 +65,7 @@ func checkSchedule(st *Stats, c *vcase.Case) string {
 	st.Record(c, hits > 0 || len(c.Plan) == 0, append(append([]string{}, c.Labels...), fmt.Sprintf("plan-sites:%d", min(len(c.Plan), 7)), fmt.Sprintf("site-hit:%v", hits > 0)))
 	if msg := checkResult(c, m, (*returned)(ans.Returned)); msg != "" {
 		if ans.Returned.Err != "" && strings.Contains(ans.Returned.Err, fallbackText) {
-			return "the engine reported that no step can make progress although the workflow's single result is producible; delays: " + planString(c.Plan)
+			return "the engine reported that no step can make progress although the workflow's single result is producible; case " + c.Profile + "; delays: " + planString(c.Plan)
 		}
 		return "result under the delay plan differs from the workflow's single result (" + planString(c.Plan) + "): " + msg
 	}
@@ -96,7 +96,7 @@ func TestC09(t *testing.T) {
 	}
 	st := newStats("C09")
 	defer st.flush()
-	sites, knownExcluded := dropKnownSites(allSites(t))
+	sites, partialKnown, knownExcluded := dropKnownSites(allSites(t))
 	motifs := vcase.Motifs()
 	st.mu.Lock()
 	st.Excluded["K6r:known-site"] += knownExcluded
@@ -118,6 +118,12 @@ func TestC09(t *testing.T) {
 			t.Fatalf("C09 (empty plan, %s): %s", mc.Profile, msg)
 		}
 	}
+	// how often does each motif pass each site? (undisturbed run that counts every site)
+	hitsOf := make([]map[string]int, len(motifs))
+	for mi, mc := range motifs {
+		hitsOf[mi] = RunCase(clonePlanCase(mc, vsched.Plan{"*": {}}).Request("run")).SiteHits
+	}
+	skippedUnhit, knownVariants := 0, 0
 	for si, site := range sites {
 		if sample > 1 && hash32(seed+"/"+site)%uint32(sample) != 0 {
 			continue
@@ -127,16 +133,50 @@ func TestC09(t *testing.T) {
 			if (si*len(motifs)+mi)%shards != shard {
 				continue
 			}
-			pairs++
-			c := clonePlanCase(mc, vsched.Plan{site: {DelayMs: 60, First: 3}})
-			if msg := checkSchedule(st, c); msg != "" {
-				st.Fail(c, msg)
-				if os.Getenv("VERIF_C09_COLLECT") != "" {
-					fmt.Printf("C09-FAIL\t%s\t%s\t%s\n", mc.Profile, site, short(msg, 120))
-					continue
-				}
-				t.Fatalf("C09 (%s, site %s): %s", mc.Profile, site, msg)
+			h := hitsOf[mi][site]
+			if h == 0 {
+				skippedUnhit++ // the motif never passes this site
+				continue
 			}
+			// the first three passes; the last pass (completion paths); every pass when there are few
+			variants := []vsched.SitePlan{{DelayMs: 60, First: 3}}
+			if h > 3 {
+				if partialKnown[site]["last@"+mc.Profile] {
+					knownVariants++
+				} else {
+					variants = append(variants, vsched.SitePlan{DelayMs: 60, Nth: h})
+				}
+			}
+			if h > 3 && h <= 12 {
+				if partialKnown[site]["all@"+mc.Profile] {
+					knownVariants++
+				} else {
+					variants = append(variants, vsched.SitePlan{DelayMs: 40})
+				}
+			}
+			for _, sp := range variants {
+				pairs++
+				c := clonePlanCase(mc, vsched.Plan{site: sp})
+				if msg := checkSchedule(st, c); msg != "" {
+					st.Fail(c, msg)
+					if os.Getenv("VERIF_C09_COLLECT") != "" {
+						fmt.Printf("C09-FAIL\t%s\t%s\t%+v\t%s\n", mc.Profile, site, sp, short(msg, 120))
+						continue
+					}
+					t.Fatalf("C09 (%s, site %s, %+v): %s", mc.Profile, site, sp, msg)
+				}
+			}
+		}
+	}
+	st.mu.Lock()
+	st.Extra["pairs_skipped_site_never_hit"] = skippedUnhit
+	st.Excluded["K6r:known-site-variant"] += knownVariants
+	st.mu.Unlock()
+	// the random plans stay away from partially known sites
+	var randomSites []string
+	for _, s := range sites {
+		if partialKnown[s] == nil {
+			randomSites = append(randomSites, s)
 		}
 	}
 	st.mu.Lock()
@@ -155,7 +195,7 @@ func TestC09(t *testing.T) {
 		n := rapid.IntRange(1, 6).Draw(rt, "plan.n")
 		c.Plan = vsched.Plan{}
 		for i := 0; i < n; i++ {
-			s := sites[rapid.IntRange(0, len(sites)-1).Draw(rt, fmt.Sprintf("plan.site%d", i))]
+			s := randomSites[rapid.IntRange(0, len(randomSites)-1).Draw(rt, fmt.Sprintf("plan.site%d", i))]
 			c.Plan[s] = vsched.SitePlan{DelayMs: rapid.IntRange(1, 40).Draw(rt, fmt.Sprintf("plan.delay%d", i)), First: rapid.IntRange(0, 3).Draw(rt, fmt.Sprintf("plan.first%d", i))}
 		}
 		c.Labels = append(c.Labels, "random-multi-site-plan")
@@ -186,11 +226,15 @@ func TestC09Emit(t *testing.T) {
 	t.Fatalf("unknown motif %s", parts[0])
 }
 
-// dropKnownSites removes the schedule points listed by the open finding K6r.
-func dropKnownSites(sites []string) ([]string, int) {
+// dropKnownSites removes the schedule points listed by the open finding K6r. An entry "site" drops the
+// site altogether; "site|last@motif" / "site|all@motif" drop only that delay variant of the sweep for
+// that motif (such a site is also kept out of the random plans). The second result maps the partially known sites to their
+// dropped variants.
+func dropKnownSites(sites []string) ([]string, map[string]map[string]bool, int) {
+	partial := map[string]map[string]bool{}
 	raw, err := os.ReadFile("known_findings.json")
 	if err != nil {
-		return sites, 0
+		return sites, partial, 0
 	}
 	var kf struct {
 		Findings []struct {
@@ -200,13 +244,20 @@ func dropKnownSites(sites []string) ([]string, int) {
 		} `json:"findings"`
 	}
 	if json.Unmarshal(raw, &kf) != nil {
-		return sites, 0
+		return sites, partial, 0
 	}
 	known := map[string]bool{}
 	for _, f := range kf.Findings {
 		if f.Status == "open" {
 			for _, s := range f.KnownSites {
-				known[s] = true
+				if i := strings.Index(s, "|"); i >= 0 {
+					if partial[s[:i]] == nil {
+						partial[s[:i]] = map[string]bool{}
+					}
+					partial[s[:i]][s[i+1:]] = true
+				} else {
+					known[s] = true
+				}
 			}
 		}
 	}
@@ -219,5 +270,5 @@ func dropKnownSites(sites []string) ([]string, int) {
 		}
 		out = append(out, s)
 	}
-	return out, n
+	return out, partial, n
 }
